@@ -470,6 +470,12 @@ struct Checker {
             if (!ks::generate_family<K>(spec, eps, data, q)) { fprintf(stderr, "cannot regenerate family\n"); exit(2); }
             if (m.count("prior_chunks")) for (auto &pc : mc::split(m.at("prior_chunks"), '.')) silent_build(data, eps, atoi(pc.c_str()));
             verif::chunks = int(spec.chunks); desc = (m.count("prior_chunks") ? "prior_chunks=" + m.at("prior_chunks") + " " : "") + "family=" + m.at("family");
+        } else if (m.count("witness")) {
+            auto pr = mc::split(m.at("witness"), ':'); long shape = atol(pr[0].c_str()), nn = atol(pr[1].c_str());
+            if constexpr (std::is_same_v<K, uint64_t>) { uint64_t x = 12345, G = uint64_t(1) << 28; for (long i = 0; i < nn; ++i) { data.push_back(x); x += (shape == 0 ? G - uint64_t(i) : G - uint64_t(nn) + uint64_t(i)); } }
+            printf("replay: key=%s eps=%zu witness family n=%zu\n", kname(), eps, data.size());
+            check_witness(data, eps, "witness=" + m.at("witness"));
+            return;
         } else if (m.count("convex")) {
             auto pr = mc::split(m.at("convex"), ':'); long shape = atol(pr[0].c_str()), lo = atol(pr[1].c_str()), nn = atol(pr[2].c_str());
             if constexpr (std::is_same_v<K, uint64_t>) { if (shape == 0) for (long i = 0; i < nn; ++i) { uint64_t v = uint64_t(lo + i); data.push_back(v * v); } else for (long i = 0; i < nn; ++i) data.push_back(uint64_t(std::sqrt((long double)(lo + i)) * 4000000.0L)); }
